@@ -383,6 +383,22 @@ def fmt(t, depth=0):
     return "%s(%s)" % (k, ", ".join(fmt(x, d) if isinstance(x, tuple) else str(x) for x in t[1:]))
 
 
+def const_str(t):
+    """The string of a string-literal constant term / operand, else None."""
+    d = None
+    if isinstance(t, tuple) and t[0] == "const" and isinstance(t[1], str):
+        d = t[1]
+    elif isinstance(t, dict) and t.get("k") == "const" and "str" in t.get("ty", ""):
+        d = t.get("disp")
+    if d is None:
+        return None
+    if d.startswith("const "):
+        d = d[6:]
+    if len(d) >= 2 and d[0] == '"' and d[-1] == '"':
+        return d[1:-1]
+    return None
+
+
 def walk(t):
     """All subterms, pre-order."""
     yield t
@@ -652,6 +668,8 @@ class Path:
         self.blocks = []
 
     def cond_dict(self):
+        """term -> value; for enum discriminants the value is the (refined)
+        frozenset of variant names still possible on this path."""
         return dict(self.cond)
 
     def calls(self, sub=None):
@@ -665,6 +683,10 @@ class Path:
             if e[0] == "call" and sub in e[1]:
                 return i
         return None
+
+
+NON_MUTATING_MUT = ("index_mut", "iter_mut", "borrow_mut", "deref_mut", "as_mut", "get_mut", "last_mut",
+                    "first_mut", "into_iter", "::next", "by_ref")
 
 
 class PathLimit(Exception):
@@ -810,6 +832,17 @@ class Sim:
                 name = callee(t)
                 args = tuple(self.operand(env, a) for a in t["args"])
                 val = simplify_call(name, args, t)
+                # value-producing calls on a receiver that was mutated earlier on
+                # this path are distinct atoms (epoch of the receiver)
+                if args and val and val[0] == "call":
+                    ep = p.env.get(("#epoch", args[0]), 0)
+                    if ep:
+                        val = ("call", name, args, ep)
+                    a0 = t["args"][0]
+                    if a0["k"] in ("copy", "move") and not a0["p"]["proj"] \
+                            and fn.local_ty(a0["p"]["l"]).startswith("&mut") \
+                            and not any(x in name for x in NON_MUTATING_MUT):
+                        p.env[("#epoch", args[0])] = ep + 1
                 if is_panic_callee(name):
                     p.events.append(("panic", name, t.get("line"), tuple(t.get("mac") or ())))
                     return self._finish(p, "panic")
@@ -848,40 +881,89 @@ class Sim:
                         tgt = t["otherwise"]
                     b = tgt
                     continue
+                # switch on Not(x): decide on x with inverted targets
+                if opv[0] == "un" and opv[1] == "Not" and t.get("ty") == "bool":
+                    nots = 0
+                    base = opv
+                    while isinstance(base, tuple) and base[0] == "un" and base[1] == "Not":
+                        base = base[2]
+                        nots += 1
+                    opv = base
+                    if nots % 2:
+                        tm = dict((v, bb) for v, bb in targets)
+                        f_bb = tm.get(0, t["otherwise"])
+                        t_bb = t["otherwise"] if 0 in tm else tm.get(1, t["otherwise"])
+                        targets = [[0, t_bb]]
+                        t = dict(t, targets=targets, otherwise=f_bb)
                 fx = self.fixed(opv)
                 if fx is not None:
                     tgt = dict((v, bb) for v, bb in targets).get(fx, t["otherwise"])
                     p.cond.append((opv, fx))
+                    p.events.append(("cond", opv, fx))
                     b = tgt
+                    continue
+                vs = self.variants_of(opv)
+                if vs:
+                    # enum discriminant: refine the set of possible variants
+                    possible = None
+                    for (ct, cv) in p.cond:
+                        if ct == opv and isinstance(cv, frozenset):
+                            possible = cv
+                    if possible is None:
+                        possible = frozenset(nm for nm, _ in vs)
+                    taken = set()
+                    branches = []
+                    for v, bb in targets:
+                        nm = self.variant_name(opv, v)
+                        taken.add(nm)
+                        if nm in possible:
+                            branches.append((frozenset([nm]), bb))
+                    rest = frozenset(x for x in possible if x not in taken)
+                    ow = t["otherwise"]
+                    if rest and fn.blocks[ow]["term"]["k"] != "unreachable":
+                        branches.append((rest, ow))
+                    if not branches:
+                        return self._finish(p, "infeasible")
+                    for (v, bb) in branches[1:]:
+                        q = self._fork(p)
+                        if v != possible:
+                            q.cond.append((opv, v))
+                            q.events.append(("cond", opv, v))
+                        self._go(bb, q, visited, stops)
+                    v, bb = branches[0]
+                    if v != possible:
+                        p.cond.append((opv, v))
+                        p.events.append(("cond", opv, v))
+                    b = bb
                     continue
                 # earlier decision on the identical term?
                 prev = None
                 for (ct, cv) in p.cond:
                     if ct == opv:
                         prev = cv
+                tmap = dict((v, bb) for v, bb in targets)
                 if prev is not None:
-                    named = dict((self.variant_name(opv, v), bb) for v, bb in targets)
-                    if t.get("ty") == "bool" and prev == 1 and 1 not in named:
+                    if prev == "other":
+                        b = t["otherwise"]
+                    elif t.get("ty") == "bool" and prev == 1 and 1 not in tmap:
                         b = t["otherwise"]
                     else:
-                        b = named.get(prev, t["otherwise"])
+                        b = tmap.get(prev, t["otherwise"])
                     continue
                 # fork
-                vals = [(self.variant_name(opv, v), bb) for v, bb in targets]
-                # is `otherwise` reachable (not an `unreachable` block)?
                 ow = t["otherwise"]
                 ow_live = fn.blocks[ow]["term"]["k"] != "unreachable"
-                branches = vals + ([(self.other_name(opv, [v for v, _ in targets]), ow)] if ow_live else [])
-                # for a bool, "other" means 1
+                branches = list(targets) + ([("other", ow)] if ow_live else [])
                 if t.get("ty") == "bool":
                     branches = [((1 if v == "other" else v), bb) for v, bb in branches]
-                self._branchmap[(b, id(t))] = None
                 for (v, bb) in branches[1:]:
                     q = self._fork(p)
                     q.cond.append((opv, v))
+                    q.events.append(("cond", opv, v))
                     self._go(bb, q, visited, stops)
                 v, bb = branches[0]
                 p.cond.append((opv, v))
+                p.events.append(("cond", opv, v))
                 b = bb
                 continue
             # other terminators end the path
